@@ -446,9 +446,27 @@ func c19Prior(r *Rng, src []*MNode, names []string) []*MNode {
 
 // c19WithListing replaces/adds a top-level entry named .fsutil-metadata in a prior destination.
 func c19WithListing(r *Rng, prior []*MNode, kind int) []*MNode {
+	return c19WithNamed(r, prior, c19Listing, kind)
+}
+
+// c19DerivedNames: names a writer of the listing file might use next to it (temporary / backup /
+// lock names, numbered variants), and prefixes / extensions of the listing name.  None of them is
+// reserved by the protocol: as source entries they are ordinary entries.
+func c19DerivedNames() []string {
+	l := c19Listing
+	out := []string{}
+	for _, suf := range []string{".tmp", "~", ".new", ".bak", ".old", ".lock", ".swp", ".part", ".0", ".1", ".12345", "-tmp", ".tmp.tmp", "_"} {
+		out = append(out, l+suf)
+	}
+	out = append(out, l[:len(l)-1], l[:8], l[1:], "x"+l, ".tmp"+l, "."+l, l+l, "tmp"+l+".tmp", "#"+l+"#")
+	return out
+}
+
+// c19WithNamed replaces/adds a top-level entry with the given name in a prior destination.
+func c19WithNamed(r *Rng, prior []*MNode, name string, kind int) []*MNode {
 	var out []*MNode
 	for _, n := range prior {
-		if n.Name != c19Listing {
+		if n.Name != name {
 			out = append(out, n)
 		}
 	}
@@ -457,16 +475,16 @@ func c19WithListing(r *Rng, prior []*MNode, kind int) []*MNode {
 	switch kind {
 	case 1: // a regular listing file from an earlier run (garbage bytes)
 		c := []byte("stale listing\x00\x01\x02")
-		n = &MNode{Name: c19Listing, Stat: &types.Stat{Mode: 0600, ModTime: mt, Size: int64(len(c))}, Content: c}
+		n = &MNode{Name: name, Stat: &types.Stat{Mode: 0600, ModTime: mt, Size: int64(len(c))}, Content: c}
 	case 2: // a symlink to a file outside dest
-		n = &MNode{Name: c19Listing, Stat: &types.Stat{Mode: uint32(os.ModeSymlink | 0777), Linkname: "../sentinel", ModTime: mt}}
+		n = &MNode{Name: name, Stat: &types.Stat{Mode: uint32(os.ModeSymlink | 0777), Linkname: "../sentinel", ModTime: mt}}
 	case 3: // an empty directory
-		n = &MNode{Name: c19Listing, Stat: &types.Stat{Mode: uint32(os.ModeDir | 0755), ModTime: mt}}
+		n = &MNode{Name: name, Stat: &types.Stat{Mode: uint32(os.ModeDir | 0755), ModTime: mt}}
 	case 4: // a directory with a child
-		n = &MNode{Name: c19Listing, Stat: &types.Stat{Mode: uint32(os.ModeDir | 0755), ModTime: mt},
+		n = &MNode{Name: name, Stat: &types.Stat{Mode: uint32(os.ModeDir | 0755), ModTime: mt},
 			Kids: []*MNode{{Name: "x", Stat: &types.Stat{Mode: 0644, ModTime: mt, Size: 1}, Content: []byte("x")}}}
 	case 5: // a dangling symlink
-		n = &MNode{Name: c19Listing, Stat: &types.Stat{Mode: uint32(os.ModeSymlink | 0777), Linkname: "nowhere", ModTime: mt}}
+		n = &MNode{Name: name, Stat: &types.Stat{Mode: uint32(os.ModeSymlink | 0777), Linkname: "nowhere", ModTime: mt}}
 	}
 	if n != nil {
 		out = append(out, n)
@@ -604,14 +622,20 @@ func genC19(g *Gen) {
 	r := g.Rng
 	small := []string{"a", "b", "ab", "a-b", "a b", "c", "d", "\x01", "é", c19Listing}
 	caps := []int{0, 1, 32, 64}
+	derived := c19DerivedNames()
 
 	// 1. small random trees x selectors x prior destinations
 	n := g.Vol(900, 5000)
 	for i := 0; i < n; i++ {
 		o := TreeOpts{MaxEntries: 3 + r.Intn(16), MaxDepth: 4, Names: small, Types: r.Chance(50), HardLinks: r.Chance(50),
 			Xattrs: r.Chance(30), BigFiles: r.Chance(15), Owners: true}
+		derivedNames := false
 		if r.Chance(25) {
 			o.Names = nil
+		} else if r.Chance(20) {
+			// names derived from the listing name, next to a few plain ones and the listing name itself
+			o.Names = append([]string{"a", "b", "c", c19Listing}, derived...)
+			derivedNames = true
 		}
 		src := GenView(r, o)
 		stats := c19Walk(src)
@@ -621,6 +645,10 @@ func genC19(g *Gen) {
 		}
 		var prior []*MNode
 		cls := "fresh"
+		if derivedNames {
+			cls = "derived-names+fresh"
+			g.extra["derived_name_cases"] = g.extraInt("derived_name_cases") + 1
+		}
 		switch r.Intn(4) {
 		case 1:
 			prior = c19Prior(r, src, o.Names)
@@ -646,6 +674,91 @@ func genC19(g *Gen) {
 			cls += "+src-nested-listing-name"
 		}
 		c19Emit(g, src, prior, sel, Pick(r, caps), merge, c19GenRw(r), "sel-"+sel.name+"/"+cls)
+	}
+
+	// 1b. directed: one entry whose name is derived from the listing name (temporary / backup /
+	//     numbered / prefix / extension), of every type, at top level or nested, selected or not,
+	//     next to ordinary entries; prior destinations that hold such a name themselves
+	//     (file / symlink to the sentinel outside dest / directory), fresh and merge
+	n = g.Vol(60, 400)
+	mt := int64(1600000000) * 1e9
+	for i := 0; i < n; i++ {
+		name := derived[i%len(derived)]
+		var nd *MNode
+		typ := r.Intn(5)
+		switch typ {
+		case 0, 1:
+			c := fillContent(r, 1+r.Intn(40))
+			nd = &MNode{Name: name, Stat: &types.Stat{Mode: uint32(Pick(r, []int{0644, 0600, 0755})), ModTime: mt + int64(i), Size: int64(len(c))}, Content: c}
+		case 2:
+			nd = &MNode{Name: name, Stat: &types.Stat{Mode: uint32(os.ModeDir | 0755), ModTime: mt + int64(i)},
+				Kids: []*MNode{{Name: "k", Stat: &types.Stat{Mode: 0644, ModTime: mt, Size: 1}, Content: []byte("k")}}}
+		case 3:
+			nd = &MNode{Name: name, Stat: &types.Stat{Mode: uint32(os.ModeSymlink | 0777), Linkname: "../sentinel", ModTime: mt}}
+		default:
+			nd = &MNode{Name: name, Stat: &types.Stat{Mode: uint32(os.ModeSymlink | 0777), Linkname: "nowhere", ModTime: mt}}
+		}
+		src := GenView(r, TreeOpts{MaxEntries: 5, MaxDepth: 2, Names: small[:8], Owners: true})
+		nested := r.Chance(30)
+		placed := false
+		if nested {
+			for _, k := range src {
+				if k.IsDir() {
+					k.Kids = append(k.Kids, nd)
+					sortKids(k)
+					placed = true
+					break
+				}
+			}
+		}
+		if !placed {
+			nested = false
+			root := &MNode{Kids: append(src, nd)}
+			sortKids(root)
+			src = root.Kids
+		}
+		stats := c19Walk(src)
+		var sel c19Sel
+		switch r.Intn(4) {
+		case 0:
+			sel = c19Sel{table: map[string]bool{}, def: true, name: "all"}
+		case 1:
+			sel = c19Sel{table: map[string]bool{}, name: "only-derived"}
+			for _, st := range stats {
+				if st.Path == name || strings.HasSuffix(st.Path, "/"+name) || strings.Contains(st.Path, name+"/") {
+					sel.table[st.Path] = true
+				}
+			}
+		case 2:
+			sel = c19Sel{table: map[string]bool{}, def: true, name: "all-but-derived"}
+			for _, st := range stats {
+				if st.Path == name || strings.HasSuffix(st.Path, "/"+name) {
+					sel.table[st.Path] = false
+				}
+			}
+		default:
+			sel = c19GenSel(r, stats)
+		}
+		c19CloseLinks(&sel, stats)
+		var prior []*MNode
+		cls := fmt.Sprintf("derived-name-entry-type-%d", typ)
+		if nested {
+			cls += "+nested"
+		}
+		merge := false
+		if pk := r.Intn(8); pk >= 1 && pk <= 5 {
+			if r.Chance(50) {
+				prior = c19Prior(r, src, small[:8])
+			}
+			prior = c19WithNamed(r, prior, name, pk)
+			cls += fmt.Sprintf("+prior-derived-%d", pk)
+			merge = r.Chance(40)
+			if merge {
+				cls += "+merge"
+			}
+		}
+		g.extra["derived_name_cases"] = g.extraInt("derived_name_cases") + 1
+		c19Emit(g, src, prior, sel, Pick(r, caps), merge, c19GenRw(r), cls+"/sel-"+sel.name)
 	}
 
 	// 2. listings spanning 1..6 buffer chunks (many entries, long names); few entries selected
